@@ -149,6 +149,12 @@ func (e *SpecEnv) eval(x Expr, cur, old *State) Val {
 		if n.Op == "!" {
 			return scalar(boolT, Not(v.one()))
 		}
+		if n.Op == "*" {
+			if _, ok := v.T.Underlying().(*types.Pointer); !ok {
+				return e.fail("dereference of non-pointer %s", v.T)
+			}
+			return vc.load(cur, e.f.ptrLoc(v))
+		}
 		return scalar(intT, mk(SInt, "-", v.one()))
 	case *ECond:
 		c := e.eval(n.C, cur, old).one()
